@@ -530,6 +530,72 @@ def gen_stream(family, r, scale, big):
     return cases
 
 
+def invalid_observations(r):
+    """The impossible element of each argument domain.  The property is silent about invalid parameters, so these calls are not
+    judged: the recorder only tabulates the outcome class (an exception class, or "accepted") as an observation."""
+    k16, k8, k24 = rb(r, 16), rb(r, 8), des3_key(r, 24)
+    tries = [
+        ("AES-ECB, 15-byte message", lambda: AES.new(k16, AES.MODE_ECB).encrypt(bytes(15))),
+        ("AES-CBC, 17-byte message", lambda: AES.new(k16, AES.MODE_CBC, iv=bytes(16)).encrypt(bytes(17))),
+        ("AES-CBC, 15-byte iv", lambda: AES.new(k16, AES.MODE_CBC, iv=bytes(15))),
+        ("AES-CFB, segment_size 0", lambda: AES.new(k16, AES.MODE_CFB, iv=bytes(16), segment_size=0)),
+        ("AES-CFB, segment_size 12", lambda: AES.new(k16, AES.MODE_CFB, iv=bytes(16), segment_size=12)),
+        ("AES-CFB, segment_size 136", lambda: AES.new(k16, AES.MODE_CFB, iv=bytes(16), segment_size=136)),
+        ("AES-OFB, 17-byte iv", lambda: AES.new(k16, AES.MODE_OFB, iv=bytes(17))),
+        ("AES-CTR, 16-byte nonce", lambda: AES.new(k16, AES.MODE_CTR, nonce=bytes(16))),
+        ("AES-CTR, initial_value 2^64 with 8-byte nonce", lambda: AES.new(k16, AES.MODE_CTR, nonce=bytes(8), initial_value=1 << 64)),
+        ("AES-CTR, counter block of 15 bytes", lambda: AES.new(k16, AES.MODE_CTR, counter=Counter.new(64, prefix=bytes(7)))),
+        ("AES-CTR, 8-bit counter, 257 blocks", lambda: AES.new(k16, AES.MODE_CTR, nonce=bytes(15)).encrypt(bytes(16 * 257))),
+        ("DES-CTR, no nonce", lambda: DES.new(k8, DES.MODE_CTR)),
+        ("AES-OPENPGP, 17-byte iv", lambda: AES.new(k16, AES.MODE_OPENPGP, iv=bytes(17))),
+        ("AES-GCM, empty nonce", lambda: AES.new(k16, AES.MODE_GCM, nonce=b"")),
+        ("AES-GCM, mac_len 3", lambda: AES.new(k16, AES.MODE_GCM, nonce=bytes(12), mac_len=3)),
+        ("AES-GCM, mac_len 17", lambda: AES.new(k16, AES.MODE_GCM, nonce=bytes(12), mac_len=17)),
+        ("AES-CCM, 6-byte nonce", lambda: AES.new(k16, AES.MODE_CCM, nonce=bytes(6))),
+        ("AES-CCM, 14-byte nonce", lambda: AES.new(k16, AES.MODE_CCM, nonce=bytes(14))),
+        ("AES-CCM, mac_len 5", lambda: AES.new(k16, AES.MODE_CCM, nonce=bytes(11), mac_len=5)),
+        ("AES-OCB, empty nonce", lambda: AES.new(k16, AES.MODE_OCB, nonce=b"")),
+        ("AES-OCB, 16-byte nonce", lambda: AES.new(k16, AES.MODE_OCB, nonce=bytes(16))),
+        ("AES-OCB, mac_len 7", lambda: AES.new(k16, AES.MODE_OCB, nonce=bytes(12), mac_len=7)),
+        ("AES-EAX, empty nonce", lambda: AES.new(k16, AES.MODE_EAX, nonce=b"")),
+        ("AES-EAX, mac_len 1", lambda: AES.new(k16, AES.MODE_EAX, nonce=bytes(8), mac_len=1)),
+        ("AES-SIV, 16-byte key", lambda: AES.new(k16, AES.MODE_SIV)),
+        ("AES-SIV, empty nonce", lambda: AES.new(k16 + k16, AES.MODE_SIV, nonce=b"")),
+        ("AES-KW, 8-byte message", lambda: AES.new(k16, AES.MODE_KW).seal(bytes(8))),
+        ("AES-KW, 20-byte message", lambda: AES.new(k16, AES.MODE_KW).seal(bytes(20))),
+        ("AES-KWP, empty message", lambda: AES.new(k16, AES.MODE_KWP).seal(b"")),
+        ("AES, 17-byte key", lambda: AES.new(bytes(17), AES.MODE_ECB)),
+        ("DES, 7-byte key", lambda: DES.new(bytes(7), DES.MODE_ECB)),
+        ("3DES, K1 = K2", lambda: DES3.new(k8 + k8 + rb(r, 8), DES3.MODE_ECB)),
+        ("3DES, K1 = K2 up to parity bits", lambda: DES3.new(k8 + bytes(b ^ 1 for b in k8) + rb(r, 8), DES3.MODE_ECB)),
+        ("3DES, K2 = K3", lambda: DES3.new(k24[:16] + k24[8:16], DES3.MODE_ECB)),
+        ("3DES, 8-byte key", lambda: DES3.new(k8, DES3.MODE_ECB)),
+        ("Blowfish, 3-byte key", lambda: Blowfish.new(bytes(3), Blowfish.MODE_ECB)),
+        ("Blowfish, 57-byte key", lambda: Blowfish.new(bytes(57), Blowfish.MODE_ECB)),
+        ("CAST, 4-byte key", lambda: CAST.new(bytes(4), CAST.MODE_ECB)),
+        ("CAST, 17-byte key", lambda: CAST.new(bytes(17), CAST.MODE_ECB)),
+        ("ARC2, 4-byte key", lambda: ARC2.new(bytes(4), ARC2.MODE_ECB)),
+        ("ARC2, effective_keylen 39", lambda: ARC2.new(k16, ARC2.MODE_ECB, effective_keylen=39)),
+        ("ARC2, effective_keylen 1025", lambda: ARC2.new(k16, ARC2.MODE_ECB, effective_keylen=1025)),
+        ("ARC4, empty key", lambda: ARC4.new(b"")),
+        ("ARC4, 257-byte key", lambda: ARC4.new(bytes(257))),
+        ("Salsa20, 24-byte key", lambda: Salsa20.new(key=bytes(24))),
+        ("Salsa20, 12-byte nonce", lambda: Salsa20.new(key=bytes(32), nonce=bytes(12))),
+        ("ChaCha20, 16-byte key", lambda: ChaCha20.new(key=k16)),
+        ("ChaCha20, 16-byte nonce", lambda: ChaCha20.new(key=k16 + k16, nonce=bytes(16))),
+        ("ChaCha20-Poly1305, 16-byte nonce", lambda: ChaCha20_Poly1305.new(key=k16 + k16, nonce=bytes(16))),
+    ]
+    out = []
+    for what, f in tries:
+        try:
+            f()
+            res = "accepted"
+        except Exception as e:  # noqa: BLE001
+            res = exc_class(e)
+        out.append({"what": what, "outcome": res})
+    return out
+
+
 def families():
     fams = []
     for ci in ("aes", "des", "des3", "blowfish", "cast", "arc2"):
@@ -568,7 +634,8 @@ def main():
         for c in order[k]:
             tid += 1
             recs.append(record(c, tid))
-    json.dump({"records": recs, "entropy_patched_modules": patched, "families": fams}, sys.stdout)
+    json.dump({"records": recs, "entropy_patched_modules": patched, "families": fams,
+               "invalid_observations": invalid_observations(random.Random("%d/invalid" % SEED)) if want == "all" else []}, sys.stdout)
 
 
 if __name__ == "__main__":
